@@ -1,5 +1,5 @@
 # replay of a bounded stand-in violation (C11): re-run native/c11_compilers.py
 import sys
-print("gaussian_merge on [('Sgate', (0,)), ('BSgate', (0, 1)), ('Dgate', (0,)), ('Kgate', (1,))]: the compiled program [('Kgate', [1]), ('GaussianTransform', [0, 1]), ('Dgate', [0]), ('MeasureFock', [0, 1])] computes something else (max difference 0.899)")
+print("passive n=6 modes=[1, 3, 0, 4, 2] gates=[('Rgate', (3,)), ('Interferometer', (3, 4, 0)), ('Rgate', (4,)), ('MZgate', (4, 3)), ('BSgate', (0, 1)), ('MZgate', (0, 3)), ('PassiveChannel', (4, 1, 3)), ('BSgate', (1, 3)), ('Rgate', (2,)), ('Rgate', (0,)), ('BSgate', (1, 2)), ('BSgate', (1, 3)), ('BSgate', (0, 1)), ('BSgate', (0, 4)), ('Rgate', (2,)), ('MZgate', (4, 3)), ('LossChannel', (1,))]: compiled program leaves a different Gaussian state (max difference 0.254)")
 print('REPLAY-VIOLATION')
 sys.exit(1)
